@@ -111,6 +111,10 @@ func (p *parser) endsInANumber(u *Url, input string) bool {
 	return false
 }
 
+// errIPv4NumberInvalidDigit is the plain failure of the IPv4 number parser for a part that is not a number.
+// It is not a validation error by itself; the caller decides what to record.
+var errIPv4NumberInvalidDigit = goerrors.New("IPv4 number contains a code point that is not a digit of its radix")
+
 func (p *parser) parseIPv4Number(u *Url, input string) (number int64, validationError bool, err error) {
 	if input == "" {
 		if err = p.handleError(u, errors.IPv4EmptyPart, true); err != nil {
@@ -118,18 +122,24 @@ func (p *parser) parseIPv4Number(u *Url, input string) (number int64, validation
 		}
 	}
 	R := 10
+	digits := ASCIIDigit
 	if len(input) >= 2 && (strings.HasPrefix(input, "0x") || strings.HasPrefix(input, "0X")) {
 		validationError = true
 		input = input[2:]
 		R = 16
+		digits = ASCIIHexDigit
 	} else if len(input) >= 2 && strings.HasPrefix(input, "0") {
 		validationError = true
 		input = input[1:]
 		R = 8
+		digits = asciiOctalDigit
 	}
 	if input == "" {
 		validationError = true
 		return
+	}
+	if !containsOnly(input, digits) {
+		return 0, validationError, errIPv4NumberInvalidDigit
 	}
 	number, err = strconv.ParseInt(input, R, 64)
 	return
